@@ -96,11 +96,10 @@ def yieldPkg (e : Env) (roots : List (List Name × Tree)) (pkgs : List (List Nam
 
 /-- the dotted names under which a yielded file can be imported (`find_suites`), in the order the
 code tries them: every search path that is a prefix of the file's path *and* carries the package
-the file was yielded under, longest first (`options.prefix` is sorted by length, stably); the
+the file was yielded under (`pkg`), longest first (`options.prefix` is sorted by length, stably); the
 prefix is stripped, the extension removed, the package put in front -/
-def moduleNames (e : Env) (roots : List (List Name × Tree)) (pkgs : List (List Name)) (path : List Name) :
-    List (List Name) :=
-  let pkg := yieldPkg e roots pkgs path
+def moduleNamesWith (e : Env) (roots : List (List Name × Tree)) (pkgs : List (List Name)) (pkg : List Name)
+    (path : List Name) : List (List Name) :=
   let cands := ((roots.map (·.1)).zip pkgs).filter
     (fun rp => rp.1.isPrefixOf path && rp.1.length < path.length && rp.2 == pkg)
   let sorted := PySort.isort (fun (a b : List Name × List Name) => decide (b.1.length ≤ a.1.length)) cands
@@ -109,6 +108,10 @@ def moduleNames (e : Env) (roots : List (List Name × Tree)) (pkgs : List (List 
     match rel.getLast? with
     | none => none
     | some f => (stripPyExt e f).map (fun noext => pkg ++ rel.dropLast ++ [noext]))
+
+def moduleNames (e : Env) (roots : List (List Name × Tree)) (pkgs : List (List Name)) (path : List Name) :
+    List (List Name) :=
+  moduleNamesWith e roots pkgs (yieldPkg e roots pkgs path) path
 
 /-- the first name tried: under the longest matching search path -/
 def moduleName (e : Env) (roots : List (List Name × Tree)) (pkgs : List (List Name)) (path : List Name) :
@@ -120,5 +123,63 @@ next (shorter) search path; the first accepted name is imported (and ends the lo
 def importedModules (e : Env) (accept : List Name → Bool) (roots : List (List Name × Tree))
     (pkgs : List (List Name)) : List (List Name) :=
   (findTestFiles e roots).filterMap (fun p => (moduleNames e roots pkgs p).find? accept)
+
+/-! ### `--package` / `-s`: `test_dirs` (find.py 348-362)
+
+With `-s PKG …` the walk does not start at the search paths but at the directories of the named
+packages (`import_name(p).__path__`, resolved by Python's import system: supplied by the harness in
+option order), each at most once, and only if it lies under (or is) a search path; it is yielded with
+the package of the longest such search path. -/
+
+/-- the sub-tree at a relative path -/
+def subtreeAt : Tree → List Name → Option Tree
+  | t, [] => some t
+  | .dir _ subs, c :: cs =>
+    match subs.find? (fun p => p.1 == c) with
+    | some p => subtreeAt p.2 cs
+    | none => none
+
+/-- `options.prefix`: the search paths with their packages, longest first (stable) -/
+def prefixes (roots : List (List Name × Tree)) (pkgs : List (List Name)) : List ((List Name × Tree) × List Name) :=
+  PySort.isort (fun (a b : (List Name × Tree) × List Name) => decide (b.1.1.length ≤ a.1.1.length)) (roots.zip pkgs)
+
+/-- the loop of `test_dirs` over the package directories, `seen` = directories already yielded -/
+def testDirsAux (pre : List ((List Name × Tree) × List Name)) :
+    List (List Name) → List (List Name) → List ((List Name × Tree) × List Name)
+  | _, [] => []
+  | seen, d :: ds =>
+    if seen.contains d then testDirsAux pre seen ds
+    else
+      match pre.find? (fun rp => rp.1.1.isPrefixOf d) with
+      | some rp =>
+        match subtreeAt rp.1.2 (d.drop rp.1.1.length) with
+        | some t => ((d, t), rp.2) :: testDirsAux pre (d :: seen) ds
+        | none => testDirsAux pre seen ds      -- not a directory of the search path: cannot be a package directory
+      | none => testDirsAux pre seen ds
+
+/-- `test_dirs(options, {})`: where the walk starts, with the package of each start directory -/
+def testDirs (roots : List (List Name × Tree)) (pkgs : List (List Name)) (pkgDirs : Option (List (List Name))) :
+    List ((List Name × Tree) × List Name) :=
+  match pkgDirs with
+  | none => roots.zip pkgs
+  | some ds => testDirsAux (prefixes roots pkgs) [] ds
+
+/-- `find_test_files` with `--package` -/
+def findTestFilesS (e : Env) (roots : List (List Name × Tree)) (pkgs : List (List Name))
+    (pkgDirs : Option (List (List Name))) : List (List Name) :=
+  findTestFiles e ((testDirs roots pkgs pkgDirs).map (·.1))
+
+/-- the package a file is yielded under, with `--package` -/
+def yieldPkgS (e : Env) (roots : List (List Name × Tree)) (pkgs : List (List Name))
+    (pkgDirs : Option (List (List Name))) (path : List Name) : List Name :=
+  yieldPkg e ((testDirs roots pkgs pkgDirs).map (·.1)) ((testDirs roots pkgs pkgDirs).map (·.2)) path
+
+def moduleNamesS (e : Env) (roots : List (List Name × Tree)) (pkgs : List (List Name))
+    (pkgDirs : Option (List (List Name))) (path : List Name) : List (List Name) :=
+  moduleNamesWith e roots pkgs (yieldPkgS e roots pkgs pkgDirs path) path
+
+def importedModulesS (e : Env) (accept : List Name → Bool) (roots : List (List Name × Tree))
+    (pkgs : List (List Name)) (pkgDirs : Option (List (List Name))) : List (List Name) :=
+  (findTestFilesS e roots pkgs pkgDirs).filterMap (fun p => (moduleNamesS e roots pkgs pkgDirs p).find? accept)
 
 end Ztr.Discovery
